@@ -2504,9 +2504,26 @@ def c12_select_gate_group(mir, ctx):
     def m_retain(ex, callee, args, pc, events):
         return [(pc, events + [("filter",)], TupleV([]))]
 
+    def m_indices_empty(ex, callee, args, pc, events):
+        # column_indices.is_empty(): the vector holds exactly the indices pushed on this path
+        n = sum(1 for e in events if e[0] == "push-index")
+        return [(pc, events, BoolV("true" if n == 0 else "false", n == 0))]
+
+    def m_pdesc(fmt, tag=None):
+        def f(ex, callee, args, pc, events):
+            d = fmt % what_of(ex, args[0])
+            return [(pc, events + ([(tag, d)] if tag else []), OpaqueV(d))]
+        return f
+
+    def m_table_new(ex, callee, args, pc, events):
+        return [(pc, events + [("table-new", what_of(ex, args[1]))], OpaqueV("projected-table"))]
+
     models = [
         (r"Expr::column_names$", m_names), (r"Table::has_column$", m_has), (r"Table::index_for_column_name$", m_lookup),
         (r"String::as_str$|<String as Deref>::deref$", m_same), (r"Vec::<usize>::push$", m_push), (r"Vec::<Vec<ValueRef>>::retain::<", m_retain),
+        (r"Vec::<usize>::is_empty$", m_indices_empty), (r"^Table::new$", m_table_new),
+        (r"as Iterator>::map::<", m_pdesc("map(%s)")), (r"as Iterator>::collect::<Vec<Column>>$", m_pdesc("vec(%s)")),
+        (r"as Iterator>::collect::<Vec<ValueRef>>$", m_pdesc("vec(%s)", "row-project")),
     ] + it_models
     ex = M.Exec(mir, ctx, models=models, havoc_unknown=True, max_paths=100000,
                 stop_at=lambda f, bb, term: "done" if re.search(r"Rows::<'_>::new\(", term) else None)
@@ -2564,6 +2581,15 @@ def c12_select_gate_group(mir, ctx):
                 g.queries.append(Query("proj_order_%d" % k, o.pc, "unsat", note="the projection indices %r are not the looked-up indices of the requested names in order %r" % (pushes, want)))
             if req:
                 nproj += 1
+                # the projection itself: a new table over exactly the looked-up columns, and every row visited re-assembled from them
+                tn = [e for e in evs if e[0] == "table-new"]
+                if len(tn) != 1 or not re.match(r"^vec\(map\(it#\d+\|(slice:)*ret#\d+:.*with_capacity", tn[0][1]):
+                    g.queries.append(Query("proj_table_%d" % k, o.pc, "unsat",
+                                           note="columns were requested but the result table is not built from the requested columns' indices in order (Table::new got %r)" % ([e[1][:80] for e in tn],)))
+                rowelems = [e[1] for e in evs if e[0] == "elem" and "into_table_and_values" in e[1] and re.search(r"\.1\[\d+\]$", e[1])]
+                rp = [e for e in evs if e[0] == "row-project"]
+                if rowelems and len(rp) < len(set(rowelems)):
+                    g.queries.append(Query("proj_rows_%d" % k, o.pc, "unsat", note="columns were requested but %d visited rows are not re-assembled from the requested columns" % (len(set(rowelems)) - len(rp))))
             g.queries.append(Query("ok_%d" % k, ["false"], "unsat"))
             g.witness.append(Query("w_%d" % k, o.pc, "sat"))
     if nfilter < 2 or nproj < 2:
@@ -3318,7 +3344,9 @@ def c03_rows_iterator_group(mir, ctx):
 
 
 def c03_all(mir, ctx):
-    return c03_retain_kernels_group(mir, ctx) + c03_update_kernel_group(mir, ctx) + c03_frame_group(mir, ctx) + c03_rows_iterator_group(mir, ctx)
+    # the projection law (requested columns in the requested order) is C12's select_names law, re-used here
+    return (c03_retain_kernels_group(mir, ctx) + c03_update_kernel_group(mir, ctx) + c03_frame_group(mir, ctx) + c03_rows_iterator_group(mir, ctx)
+            + c12_select_gate_group(mir, ctx))
 
 
 # --------------------------------------------------------------------------
